@@ -1,10 +1,25 @@
 //@include limitsort_sel.rs
 pub uninterp spec fn ls_spec<T, C>(items: Seq<T>, limit: usize, cmp: C) -> Seq<T>;
+// the comparator as a relation ("x is not after y"); which relation a comparator value stands for is stated per comparator where it
+// is defined (the lifted closure's contract for the tags CmpRecords / CmpCounts, the Kani-checked lexicographic order for compare_hits)
+pub uninterp spec fn ls_le<T, C>(cmp: C, x: T, y: T) -> bool;
+pub open spec fn ls_ok<T, C>(cmp: C) -> bool {
+    (forall|x: T, y: T| #[trigger] ls_le(cmp, x, y) || ls_le(cmp, y, x))
+    && (forall|x: T, y: T, z: T| #[trigger] ls_le(cmp, x, y) && #[trigger] ls_le(cmp, y, z) ==> ls_le(cmp, x, z))
+}
+pub open spec fn ls_sorted<T, C>(s: Seq<T>, cmp: C) -> bool { forall|i: int, j: int| 0 <= i <= j < s.len() ==> ls_le(cmp, #[trigger] s[i], #[trigger] s[j]) }
+// nothing left out is before the last listed item
+pub open spec fn ls_best<T, C>(r: Seq<T>, items: Seq<T>, idx: Seq<int>, cmp: C) -> bool {
+    forall|i: int| 0 <= i < items.len() && !#[trigger] idx.contains(i) && r.len() > 0 ==> ls_le(cmp, r.last(), items[i])
+}
 #[verifier::external_body]
 pub fn limit_sort_all<T, C>(items: Vec<T>, limit: usize, cmp: C) -> (r: Vec<T>)
     requires limit <= 0x7fff_ffff_ffff_ffff,   // `limit * 2` in the adapter (same precondition as the proved driver in unit limitsort)
     ensures r@ == ls_spec(items@, limit, cmp),
         r@.len() == (if items@.len() < limit { items@.len() } else { limit as nat }),
         forall|k: int| 0 <= k < r@.len() ==> items@.contains(#[trigger] r@[k]),
-        exists|idx: Seq<int>| selection(r@, items@, idx),
+        // LS-sel and LS-ord (both proved in unit limitsort on the real adapter): a selection by distinct positions; for a comparator that
+        // is a total preorder, in its order, and nothing left out is before the last listed item
+        exists|idx: Seq<int>| selection(r@, items@, idx) && (ls_ok::<T, C>(cmp) ==> ls_best(r@, items@, idx, cmp)),
+        ls_ok::<T, C>(cmp) ==> ls_sorted(r@, cmp),
 { unimplemented!() }
